@@ -28,7 +28,34 @@ def rand_call(rng, slot, nslots):
     return "%s %d" % (c, slot)
 
 
+def gen_gap_case(rng, i):
+    """a long link with a run of junk and lost pages in its middle, then seeks aimed all over the range the lost pages covered
+    (the bisection must give up on the gap, not spin in it)"""
+    n = rng.choice([150000, 300000])
+    ops = ["case %d" % i, "link %d 44100 %s %d %d %d 0 0" % (rng.choice([1, 2]), rng.choice([0.1, 0.4]), n, rng.randrange(6), rng.randrange(1, 90000))]
+    if rng.random() < 0.4:
+        ops.append(V.gen_links(rng, 1)[0])
+    first = rng.choice([5, 6, 8, 10])
+    for _ in range(rng.choice([0, 3, 8, 20])):
+        ops.append("pagedamage 6 %d 0 0" % first)                    # pages lost
+    ops.append("pagedamage 13 %d 0 %d" % (first, rng.choice([1000, 70000, 140000, 200000, 400000])))
+    ops.append("open 0 1 %d" % rng.choice([4096, 100000]))
+    for _ in range(rng.randint(6, 14)):
+        k = rng.choice(["pcmseek", "pcmseekpage", "timeseek", "pcmseeklap", "rawseek"])
+        if k == "timeseek":
+            ops.append("timeseek 0 %d" % rng.randrange(0, int(n / 44.1)))
+        elif k == "rawseek":
+            ops.append("rawseek 0 %d" % rng.randrange(0, 450000))
+        else:
+            ops.append("%s 0 %d" % (k, rng.randrange(0, n)))
+        ops.append("read 0 4096")
+    ops.append("clear 0")
+    return ops, False
+
+
 def gen_case(rng, i, tier, setups):
+    if i % 12 == 5:
+        return gen_gap_case(rng, i)
     ops = ["case %d" % i]
     style = rng.random()
     intact = False
@@ -118,8 +145,8 @@ def run(chk):
     gens = [gen_case(chk.rng, i, chk.tier, setups) for i in range(n)]
     corpus = common.load_corpus("C03", 100000)
     allcases = corpus + [g[0] for g in gens]
-    res_model = V.run_vf(allcases, model=True, timeout=2400)
-    res_plain = V.run_vf(allcases, model=False, variant="plain", env={"MALLOC_PERTURB_": "165"}, timeout=2400)
+    res_model = V.run_vf(allcases, model=True, timeout=2400, env={"VERIF_CASE_TIMEOUT": "90"})
+    res_plain = V.run_vf(allcases, model=False, variant="plain", env={"MALLOC_PERTURB_": "165", "VERIF_CASE_TIMEOUT": "60"}, timeout=2400)
     ofail = []
     stats = {"open_ok": 0, "open_failed": 0, "intact_model_compared": 0, "calls": 0}
     for d in res_model + res_plain:
@@ -144,7 +171,7 @@ def run(chk):
                             "end-trimmed, zero packets), multiplexed with a foreign stream, with junk between links; then 0-8 damages: page deleted / duplicated / swapped, serial number, "
                             "granule position (-1, 0, huge, negative), header flags (BOS/EOS/continued) or sequence number rewritten with a valid CRC, bytes truncated / zeroed / flipped / removed / repeated; "
                             "1-2 handles opened seekable or not (ov_open or ov_test+ov_test_open, callback chunk 1..100000) and 5-40 random public calls with in-range, huge and negative arguments, "
-                            "calls after ov_clear; ASan+UBSan build and a plain build with MALLOC_PERTURB_; oracle: documented return codes, counts within the request, failed open leaves the handle zeroed "
+                            "calls after ov_clear; every 12th case is a long link with lost pages and 1-400 kB of junk in its middle and seeks aimed across the gap; a per-case watchdog (SIGALRM) turns a call that never returns into a failure with that case as the replay; ASan+UBSan build and a plain build with MALLOC_PERTURB_; oracle: documented return codes, counts within the request, failed open leaves the handle zeroed "
                             "and the source unclosed, one close per successful open; 20 min time-out per batch = termination; undamaged cases are also compared line by line with the Lean model")
     chk.coverage["distribution"] = stats
     chk.assumptions += ["termination of the real C is observed (time-out), not proved; the theorems prove it for the model's backward page search (the loop repaired as F6) over every page table",
